@@ -11,6 +11,7 @@ import (
 	corev1 "k8s.io/api/core/v1"
 	netv1 "k8s.io/api/networking/v1"
 	apiequality "k8s.io/apimachinery/pkg/api/equality"
+	gatewayv1beta1 "sigs.k8s.io/gateway-api/apis/v1beta1"
 )
 
 // Residue lists what a finished / removed rollout must not leave behind and what must be back to the
@@ -18,6 +19,7 @@ import (
 type Baseline struct {
 	StableSelector map[string]string
 	Ingress        *netv1.Ingress
+	Route          *gatewayv1beta1.HTTPRoute
 	WorkloadLabels map[string]string
 	WorkloadAnnos  map[string]string
 }
@@ -31,6 +33,10 @@ func CaptureBaseline(w *World, sc *Scenario) *Baseline {
 	ing := &netv1.Ingress{}
 	if w.Get(ing, sc.ns(), AppName) {
 		b.Ingress = ing
+	}
+	rt := &gatewayv1beta1.HTTPRoute{}
+	if w.Get(rt, sc.ns(), AppName) {
+		b.Route = rt
 	}
 	if v := ViewWorkload(w, sc); v != nil {
 		b.WorkloadLabels, b.WorkloadAnnos = v.Labels, v.Annotations
@@ -73,6 +79,12 @@ func Residue(w *World, sc *Scenario, base *Baseline) []string {
 		ing := &netv1.Ingress{}
 		if w.Get(ing, ns, AppName) && (!apiequality.Semantic.DeepEqual(ing.Spec, base.Ingress.Spec) || !apiequality.Semantic.DeepEqual(ing.Annotations, base.Ingress.Annotations)) {
 			out = append(out, "stable Ingress differs from the user's")
+		}
+	}
+	if base != nil && base.Route != nil {
+		rt := &gatewayv1beta1.HTTPRoute{}
+		if w.Get(rt, ns, AppName) && !routeRulesEquivalent(rt.Spec.Rules, base.Route.Spec.Rules) {
+			out = append(out, "HTTPRoute rules differ from the user's")
 		}
 	}
 	if v := ViewWorkload(w, sc); v != nil {
@@ -236,4 +248,20 @@ func (FinalizerMonitor) OnWrite(x *Ctx, w *Write) {
 			}
 		}
 	}
+}
+
+// routeRulesEquivalent compares HTTPRoute rules ignoring the weight of a rule's SOLE backend (semantically
+// irrelevant there; the provider normalises it to 1).
+func routeRulesEquivalent(a, b []gatewayv1beta1.HTTPRouteRule) bool {
+	norm := func(in []gatewayv1beta1.HTTPRouteRule) []gatewayv1beta1.HTTPRouteRule {
+		out := make([]gatewayv1beta1.HTTPRouteRule, len(in))
+		for i := range in {
+			out[i] = *in[i].DeepCopy()
+			if len(out[i].BackendRefs) == 1 {
+				out[i].BackendRefs[0].Weight = nil
+			}
+		}
+		return out
+	}
+	return apiequality.Semantic.DeepEqual(norm(a), norm(b))
 }
